@@ -30,7 +30,7 @@ NAMES = ["ax", "ay", "az", "tagx", "tagy", "tagz", "rnd"]
 
 
 def cases(tier, seed):
-    n = 20 if tier == "quick" else 120
+    n = 20 if tier == "quick" else 400
     rng = random.Random(seed + 700)
     cs = []
     for i in range(n):
